@@ -32,7 +32,7 @@ COMPONENTS = {
     "stub": ["tagged converter/encoder functions", "class hierarchy", "reference registry model", "OS scheduler (threaded mode)"],
 }
 TIERS = {
-    "quick": {"runs": 60000, "chunk": 250, "selftest": 64, "minimise_s": 30},
+    "quick": {"runs": 150000, "chunk": 250, "selftest": 64, "minimise_s": 30},
     "thorough": {"budget_s": 600, "chunk": 300, "selftest": 512, "minimise_s": 90},
 }
 PROBES = ["profiled_write_cut", "register_after_resolve", "priority_conflict", "priority_zero_after_positive", "detector_fault", "converter_fault",
@@ -243,6 +243,20 @@ def generate(rng, tier):
             {"kind": "quantum", "q": rng.choice([1, 2, 3, 5]), "seed": pseed},
             {"kind": "pct", "d": rng.choice([2, 3]), "est": 300, "seed": pseed},
         ])
+        if rng.random() < 0.35:
+            # the memo race needs: a lookup of K in flight, a registration for K completing, and a LATER lookup of K
+            tK = rng.choice(["Base", "Mid", "Low", "Other"])
+            look = {"op": rng.choice(["resolve", "resolve", "convert"]) if flavour == "global_transformer" else "resolve", "t": tK}
+            tagn += 1
+            reg = {"op": "register", "spec": {"classes": [tK], "sub": True, "priority": 0}, "tag": "c%d" % tagn}
+            pre = [o for o in ops if o["op"] == "register"][:1]
+            ops = pre + [dict(look), reg, dict(look)]
+            plan["ops"] = ops
+            n0 = len(pre)
+            plan["threads"] = [list(range(0, n0)) + [n0, n0 + 2], [n0 + 1]]
+            if rng.random() < 0.6:
+                # stop the reader at one of the places where it reads the shared state, let the registration complete, go on
+                plan["schedule"] = {"kind": "acuts", "cuts": [[0, rng.randint(1, 14), "R"], [1, 2, "O"]], "seed": pseed}
         writers = [t for t, idxs in enumerate(plan["threads"]) if any(ops[i]["op"] == "register" for i in idxs)]
         if writers and rng.random() < 0.3:
             # stop a registering thread just before one of its stores into the registry (which one: a fraction of the
